@@ -209,6 +209,14 @@ func finish(c *Ctx, verifDir, prop, tier string, seed int, results []ruleResult,
 				fmt.Printf("KNOWN-FINDING: property=%s %s [%s at %s] input: %s\n", prop, k.What, o.Key, o.Site, k.Input)
 				continue
 			}
+			// the same finding under another function name: the function it was recorded for is gone from the program
+			// and this key differs from the recorded one in that name only (renamed, inlined, split)
+			if mk := movedKnown(c, known, res.obs, o.Key, prop); mk != nil {
+				nKnown++
+				usedKnown[mk.Key] = true
+				fmt.Printf("KNOWN-FINDING: property=%s %s [%s at %s; recorded as %s, a function that no longer exists] input: %s\n", prop, mk.What, o.Key, o.Site, mk.Key, mk.Input)
+				continue
+			}
 			if replayKey != "" && o.Key != replayKey {
 				continue
 			}
@@ -332,4 +340,33 @@ func sortedKeys[V any](m map[string]V) []string {
 	}
 	sort.Strings(ks)
 	return ks
+}
+
+// movedKnown: the known finding recorded for the construct of key in a function that has disappeared (see moved.go).
+func movedKnown(c *Ctx, known *knownFile, obs []*Ob, key, prop string) *knownEntry {
+	produced := map[string]bool{}
+	for _, o := range obs {
+		produced[o.Key] = true
+	}
+	var found *knownEntry
+	n, best := 0, 0
+	for i := range known.Known {
+		k := &known.Known[i]
+		if produced[k.Key] {
+			continue
+		}
+		sc := c.movedMatch(k.Key, key)
+		if sc == 0 || sc < best {
+			continue
+		}
+		if sc > best {
+			best, n = sc, 0
+		}
+		found = k
+		n++
+	}
+	if n == 1 {
+		return found
+	}
+	return nil
 }
